@@ -734,6 +734,20 @@ pub(crate) fn parse_date_time(source: &str) -> TemporalResult<IxdtfParseRecord> 
     Ok(record)
 }
 
+/// A utility function for parsing a `relativeTo` string: a zoned date-time string (the UTC designator is
+/// allowed then) or, without a time zone annotation, a plain date-time string.
+#[inline]
+pub(crate) fn parse_relative_to(source: &str) -> TemporalResult<IxdtfParseRecord> {
+    let record = parse_ixdtf(source, ParseVariant::DateTime)?;
+
+    if record.tz.is_none() && record.offset == Some(UtcOffsetRecordOrZ::Z) {
+        return Err(TemporalError::range()
+            .with_message("UTC designator is not valid for DateTime parsing."));
+    }
+
+    Ok(record)
+}
+
 #[inline]
 pub(crate) fn parse_zoned_date_time(source: &str) -> TemporalResult<IxdtfParseRecord> {
     let record = parse_ixdtf(source, ParseVariant::DateTime)?;
